@@ -3,7 +3,7 @@ each is parsed by the real library and the stored content compared with the deno
 import json, os, collections, random
 from vlib import *
 
-SPECIAL = {"\n": "<EOL>", "\t": "<TAB>", "é": "<U2>", "€": "<U3>", "𝄞": "<U4>"}
+SPECIAL = {"\n": "<EOL>", "\t": "<TAB>", "é": "<U2>", "€": "<U3>", "𝄞": "<U4>", "\x01": "<C1>", "\x7f": "<DEL>"}
 RSPECIAL = {v: k for k, v in SPECIAL.items()}
 
 # value palette: chosen for lexical significance
@@ -89,6 +89,14 @@ def expected_content(d):
         names = [from_chars(n) for n in d["names"]]
         pk = [dict(zip(names, [val_expected(v) for v in p])) for p in d["packets"]]
         return {"b": {"items": {}, "loops": [{"names": sorted(names), "packets": sorted(json.dumps(p, sort_keys=True) for p in pk)}], "frames": {}}}
+    if d["shape"] == "tree":
+        def cont(c):
+            return {"items": items(c.get("items", [])),
+                    "loops": sorted(({"names": sorted(from_chars(n) for n in l["names"]),
+                                      "packets": sorted(json.dumps(dict(zip([from_chars(n) for n in l["names"]], [val_expected(v) for v in p])), sort_keys=True) for p in l["packets"])}
+                                     for l in c.get("loops", [])), key=lambda l: l["names"]),
+                    "frames": {from_chars(f["code"]): cont(f) for f in c.get("frames", [])}}
+        return {from_chars(b["code"]): cont(b) for b in d["blocks"]}
     raise Infra("unknown shape " + d["shape"])
 
 
@@ -253,3 +261,281 @@ def c01(tier, replay=None):
                        "documents": total, "configs": covs, "palette_values": len(PALETTE), "exhaustive": tier != "quick",
                        "explanation": "every value of the palette x every admissible presentation x every separator x every context (single slots), and every ordered pair of adjacent value tokens in the pair configurations"},
                       ["the renderer only encodes characters and picks the terminator style; the concrete syntax is produced by CifDoc.tla"])
+
+
+# ------------------------------------------------------------------------------------------------ C12
+DEFECTS = ["missing_value", "missing_value_loop", "missing_value_table", "dup_scalar", "dup_scalar_case", "dup_loop_stored", "dup_loop_header",
+           "dup_block", "dup_frame", "partial_packet", "null_loop", "null_loop_loop", "empty_loop", "missing_endquote", "missing_endquote_dq",
+           "unclosed_text", "unclosed_triple", "missing_space_qq", "missing_space_qname", "missing_space_list", "stray_cbracket", "stray_cbrace",
+           "missing_cbracket", "missing_cbrace", "missing_key", "missing_key_bare", "null_key", "unquoted_key", "text_key", "reserved_data",
+           "reserved_stop", "reserved_global", "unexpected_value", "unexpected_value_q", "unexpected_term", "no_frame_term", "nested_frame",
+           "eof_in_frame", "overlength", "maxlength", "disallowed_char", "disallowed_char_cmt", "disallowed_del", "no_block_header"]
+
+
+def c12(tier, replay=None):
+    rep = Report("C12", tier, "model_checking")
+    binary = build("asan")
+    rnd = random.Random(SEED)
+    q = lambda xs: "{" + ", ".join('"%s"' % x for x in xs) + "}"
+    extra_cfg = " DEFECTS = %s\n" % q(DEFECTS)
+    if tier == "quick":
+        plans = [("d-host2", ["word", "apos", "ml"], ["bare", "sq", "tdq", "text"], ["sp", "eol"], ["eof", "eol", "cmt"], 2)]
+    else:
+        plans = [("d-host2", sorted(PALETTE), ALLPRES, ["sp", "eol", "cmt"], ["eof", "eol", "cmt"], 2),
+                 ("d-host3", ["word", "apos", "ml", "unk", "semi", "bslend"], ["bare", "sq", "tdq", "text", "textpf"], ["sp", "eol"], ["eof", "eol"], 3)]
+    covs = []
+    tstates = ttrans = total = total_ok = 0
+    per_class = collections.Counter()
+    for name, vids, pres, seps, tails, ns in plans:
+        wd = scratch_dir("defect-" + name)
+        with open(os.path.join(wd, "MCDefect.tla"), "w") as f:
+            f.write("---- MODULE MCDefect ----\nEXTENDS CifDefect\nMCPalette == %s\n====\n" % palette_tla(sorted(PALETTE)))
+        for m in ("CifDoc.tla", "CifDefect.tla"):
+            shutil.copy(os.path.join(SPEC, m), wd)
+        cfgp = os.path.join(wd, "MCDefect.cfg")
+        cfg = gen_cfg(2, vids, pres, seps, ["scalars"], tails, ns).replace("SPECIFICATION Spec", "SPECIFICATION DSpec").replace("INVARIANT GenInvariant\nINVARIANT EmitDoc", "INVARIANT PlantedIsVisible\nINVARIANT EmitDefect")
+        cfg = cfg.replace("CONSTANTS\n", "CONSTANTS\n" + extra_cfg)
+        open(cfgp, "w").write(cfg)
+        out = os.path.join(wd, "tlc.out")
+        t0 = time.time()
+        with open(out, "w") as fo:
+            try:
+                subprocess.run(["tlc", "-workers", str(NCPU), "-metadir", os.path.join(wd, "meta"), "-config", cfgp, os.path.join(wd, "MCDefect.tla")],
+                               stdout=fo, stderr=subprocess.STDOUT, cwd=wd, timeout=2400)
+            except subprocess.TimeoutExpired:
+                pass
+        tail = subprocess.run(["tail", "-c", "6000", out], capture_output=True, text=True).stdout
+        if "No error has been found" not in tail:
+            i = tail.find("Error:")
+            cleanup(wd)
+            raise Infra("TLC failed on CifDefect %s: %s" % (name, tail[i:i + 2000]))
+        m = re.search(r"(\d+) states generated, (\d+) distinct states found", tail)
+        tstates += int(m.group(2)); ttrans += int(m.group(1))
+        docs = [o for tag, o in iter_tlc_json(out, ("DEFECT",))]
+        cleanup(wd)
+        if tier == "quick" and len(docs) > 8000:
+            # keep every class represented
+            byc = collections.defaultdict(list)
+            for o in docs:
+                byc[o["defect"]].append(o)
+            docs = []
+            for c, lst in byc.items():
+                rnd.shuffle(lst)
+                docs += lst[:max(40, 8000 // len(byc))]
+        jobs = [(render(o["d"]["doc"], ("lf", "crlf", "lf", "cr")[i % 4]), i) for i, o in enumerate(docs)]
+        nok = 0
+        for key, po, pr, leak in parse_docs(binary, jobs):
+            o = docs[key]
+            d = o["d"]
+            label = "%s at %d of %s" % (o["defect"], o["pos"], "+".join("%s/%s/%s" % (s["v"], s["p"], s["s"]) for s in o["slots"]))
+            if po is None:
+                rep.violation("%s: abnormal termination %s" % (o["defect"], sanitizer_signature(leak or "")), "cif_parse did not return on %s" % label, {"text": jobs[key][0], "stderr": (leak or "")[-1500:]})
+                continue
+            per_class[o["defect"]] += 1
+            problems = []
+            errs = [e for e in po.get("log", []) if e.get("cb") == "error"]
+            if d["code"] == 0:
+                if errs:
+                    problems.append("error %s reported for a document without defect" % errs[0]["code"])
+            elif not errs:
+                problems.append("no error reported (rc %s), expected %s" % (po.get("rc"), d["code"]))
+            else:
+                if errs[0]["code"] != d["code"]:
+                    problems.append("first error %s, documented %s" % (errs[0]["code"], d["code"]))
+                elif not (d["low"] <= errs[0]["line"] <= d["high"]):
+                    problems.append("error %s at line %s, expected within %s..%s" % (errs[0]["code"], errs[0]["line"], d["low"], d["high"]))
+                if any(e["line"] < 1 for e in errs):
+                    problems.append("line number < 1")
+            if po.get("rc") != 0:
+                problems.append("rc %s although every error was accepted" % po.get("rc"))
+            exp = expected_content(d)
+            got = observed_content(pr["state"]) if pr and "state" in pr else None
+            if got != exp:
+                ok_alt = False
+                if d.get("alt") == "empty_loop_kept" and got is not None:
+                    g2 = json.loads(json.dumps(got))
+                    for b in g2.values():
+                        b["loops"] = [l for l in b["loops"] if l["packets"]]
+                    ok_alt = (g2 == exp)
+                if not ok_alt:
+                    problems.append("content after recovery %s, documented %s" % (json.dumps(got, ensure_ascii=True)[:400], json.dumps(exp, ensure_ascii=True)[:400]))
+            if leak:
+                problems.append("memory leaked (LeakSanitizer)")
+            if problems:
+                rep.violation("%s: %s" % (o["defect"], re.sub(r"[0-9]+", "N", problems[0])[:60]), "%s: %s" % (label, "; ".join(problems)),
+                              {"text": jobs[key][0], "documented": {"code": d["code"], "lines": [d["low"], d["high"]], "content": exp}})
+            else:
+                nok += 1
+        total += len(docs); total_ok += nok
+        covs.append({"config": name, "documents": len(docs), "as_documented": nok})
+        log("[C12 %s] documents %d ok %d" % (name, len(docs), nok))
+        if not rep.samples and docs:
+            o = docs[len(docs) // 2]
+            rep.samples.append({"defect": o["defect"], "document": render(o["d"]["doc"])[:300], "documented_code": o["d"]["code"], "line_window": [o["d"]["low"], o["d"]["high"]]})
+    missing = [c for c in DEFECTS if per_class[c] == 0]
+    if missing:
+        raise Infra("defect classes never planted: %s" % missing)
+    return rep.finish({"states": max(tstates, 1), "transitions": max(ttrans, 1), "traces_validated_against_impl": total_ok,
+                       "documents": total, "configs": covs, "defect_classes": len(DEFECTS), "documents_per_class": dict(per_class), "exhaustive": tier != "quick",
+                       "explanation": "every defect class x every admissible position among the host items x host items over the palette / presentations / separators"},
+                      ["host documents are scalar-item documents of CifDoc.tla; each class has one or two representative fragments"])
+
+
+# ------------------------------------------------------------------------------------------------ C08
+def check_buffer_model(tier):
+    """M1: CifBuffer.tla - per-fill folding with the carry flag is independent of the cuts (exhaustive, small streams)"""
+    n = 6 if tier == "quick" else 8
+    cfg = "SPECIFICATION Spec\nCONSTANTS\n MaxLen = %d\n CARRY = TRUE\nINVARIANT ChunkingIndependence LineCountIndependence NoCrLeft OrdinaryPreserved\nCHECK_DEADLOCK FALSE\n" % n
+    out, st, wd = run_tlc("CifBuffer", cfg, "buffer", timeout=1500)
+    cleanup(wd)
+    if not st["ok"]:
+        raise Infra("CifBuffer.tla: " + st["error"][:1200])
+    return st
+
+
+def pad_bytes(n, eol):
+    """n bytes of insignificant text (spaces and comment lines), and the number of line terminators in it"""
+    e = EOLS[eol]
+    out = []
+    lines = 0
+    line = 1500 + len(e)
+    while n >= line + 2:
+        out.append("#" + "p" * (line - 1 - len(e)) + e)
+        n -= line
+        lines += 1
+    if n >= 1 + len(e) + 1 or (n >= 1 + len(e)):
+        # one more shorter comment line
+        k = n - len(e)
+        if k >= 1:
+            out.append("#" + "q" * (k - 1) + e)
+            n = 0
+            lines += 1
+    out.append(" " * n)
+    return "".join(out), lines
+
+
+INTERESTING = set("'\";\\[]{}:#_") | {"\r", "\n"}
+
+
+def variants_for(text_chars, eol, rnd, offsets, max_pos=14):
+    """(variant text, pad lines) list: the document with padding after the magic line so that interesting bytes fall on
+    the 4096-byte read boundary"""
+    base = render(text_chars, eol)
+    b = base.encode("utf-8")
+    m = base.index(EOLS[eol]) + len(EOLS[eol])        # after the magic line
+    mb = len(base[:m].encode("utf-8"))
+    # byte positions of interesting characters
+    pos = []
+    bi = 0
+    for ch in base:
+        n = len(ch.encode("utf-8"))
+        if bi >= mb and (ch in INTERESTING or n > 1):
+            pos.append((bi, n))
+        bi += n
+    if len(pos) > max_pos:
+        pos = rnd.sample(pos, max_pos)
+    res = [(base, 0, "plain")]
+    for bp, n in pos:
+        for off in offsets(n):
+            # byte bp+off becomes the first byte of the second read (absolute offset 4096)
+            need = (4096 - (bp + off)) % 4096
+            pad, lines = pad_bytes(need, eol)
+            if len(pad.encode()) != need:
+                continue
+            res.append((base[:m] + pad + base[m:], lines, "byte %d+%d at 4096" % (bp, off)))
+    return res
+
+
+def c08(tier, replay=None):
+    rep = Report("C08", tier, "model_checking")
+    binary = build("asan")
+    rnd = random.Random(SEED)
+    st = check_buffer_model(tier)
+    # base documents: well-formed (CifDoc) and defective (CifDefect)
+    vids = ["word", "apos", "ml", "mlsemi", "mlblank", "bslend", "u2", "u3", "u4", "empty", "nl", "nlend", "semi", "unk"]
+    out, st1, wd = run_doc_tlc("c08-base", 2, vids, ALLPRES, ["sp", "eol", "cmt", "none"], ["scalars", "loop1", "list", "table"], ["eof", "eol"], 2 if tier != "quick" else 1)
+    if not st1["ok"]:
+        cleanup(wd); raise Infra("TLC failed on CifDoc (C08 bases): " + st1.get("error", "")[:1000])
+    bases = [o for tag, o in iter_tlc_json(out, ("DOC",))]
+    cleanup(wd)
+    rnd.shuffle(bases)
+    nb = 60 if tier == "quick" else 400
+    # prefer bases with line terminators or non-ASCII characters inside values
+    rich = [o for o in bases if any(s["v"] in ("ml", "mlsemi", "mlblank", "u2", "u3", "u4", "nl", "nlend") for s in o["slots"])]
+    bases = (rich[:nb * 2 // 3] + bases[:nb])[:nb]
+    offs = (lambda n: range(0, n + 1)) if tier != "quick" else (lambda n: (0, 1) if n == 1 else (0, 1, n))
+    jobs, meta = [], []
+    for bi, o in enumerate(bases):
+        for eol in ("lf", "crlf", "cr"):
+            for text, lines, what in variants_for(o["d"]["doc"], eol, rnd, offs, max_pos=8 if tier == "quick" else 20):
+                jobs.append((text, len(meta))); meta.append((bi, eol, lines, what))
+        mixed = render(o["d"]["doc"], mixed_rnd=random.Random(SEED + bi))
+        jobs.append((mixed, len(meta))); meta.append((bi, "mixed", 0, "plain"))
+    # long tokens across the scan buffer (131200 units) and several reads
+    longs = []
+    sizes = [4090, 4095, 4096, 4097, 8191, 8192] if tier == "quick" else [4090 + i for i in range(12)] + [8190, 8191, 8192, 8193, 131190, 131199, 131200, 131201, 131210, 262400, 300000]
+    for n in sizes:
+        for eol in ("lf", "crlf"):
+            e = EOLS[eol]
+            body_lines = []
+            left = n
+            k = 0
+            while left > 0:
+                ln = min(left, 1999)
+                body_lines.append(("L%d-" % k + "z" * ln)[:ln] if ln > 4 else "z" * ln)
+                left -= ln + 1
+                k += 1
+            body = "\n".join(body_lines)
+            doc = "#\\#CIF_2.0" + e + "data_b" + e + "_n1" + e + ";" + body.replace("\n", e) + e + ";" + e + "_n2 'after'" + e
+            longs.append((doc, n, eol, body))
+    for doc, n, eol, body in longs:
+        jobs.append((doc, len(meta))); meta.append((-1, eol, 0, ("long", n, body)))
+    nok = total = 0
+    base_errs = {}
+    results = parse_docs(binary, jobs, chunk=60)
+    # first pass: reference error lists (plain LF)
+    for key, po, pr, leak in results:
+        bi, eol, lines, what = meta[key]
+        if bi >= 0 and eol == "lf" and what == "plain" and po:
+            base_errs[bi] = [(e["code"], e["line"]) for e in po.get("log", []) if e.get("cb") == "error"]
+    for key, po, pr, leak in results:
+        bi, eol, lines, what = meta[key]
+        total += 1
+        if po is None:
+            rep.violation("abnormal termination %s" % sanitizer_signature(leak or ""), "cif_parse did not return (%s, %s)" % (eol, what), {"text_head": jobs[key][0][:300], "stderr": (leak or "")[-1500:]})
+            continue
+        problems = []
+        errs = [(e["code"], e["line"]) for e in po.get("log", []) if e.get("cb") == "error"]
+        got = observed_content(pr["state"]) if pr and "state" in pr else None
+        if bi >= 0:
+            o = bases[bi]
+            exp = expected_content(o["d"])
+            if got != exp:
+                problems.append("content %s, denoted %s" % (json.dumps(got, ensure_ascii=True)[:300], json.dumps(exp, ensure_ascii=True)[:300]))
+            ref = [(c, l + lines) for c, l in base_errs.get(bi, [])]
+            if errs != ref:
+                problems.append("errors %s, with LF and no padding %s (shifted by %d pad lines)" % (errs[:4], ref[:4], lines))
+            label = "%s %s" % (o["ctx"], "+".join("%s/%s/%s" % (s["v"], s["p"], s["s"]) for s in o["slots"]))
+        else:
+            _, n, body = what
+            exp = {"b": {"items": {"_n1": {"k": "char", "t": body, "q": 1}, "_n2": {"k": "char", "t": "after", "q": 1}}, "loops": [], "frames": {}}}
+            if got != exp:
+                t = ((got or {}).get("b", {}).get("items", {}).get("_n1") or {}).get("t")
+                problems.append("text field of %d characters read back with %s characters%s" % (n, len(t) if isinstance(t, str) else t, "" if t is None or len(t) != len(body) else " (content differs)"))
+            if errs:
+                problems.append("errors %s" % errs[:3])
+            label = "long text field %d" % n
+        if leak:
+            problems.append("memory leaked (LeakSanitizer)")
+        if problems:
+            rep.violation("%s %s: %s" % (eol, what if isinstance(what, str) and what == "plain" else ("aligned" if bi >= 0 else "long"), re.sub(r"[0-9]+", "N", problems[0])[:50]),
+                          "%s, terminators %s, %s: %s" % (label, eol, what if isinstance(what, str) else what[:2], "; ".join(problems)), {"text_hex": jobs[key][0].encode("utf-8").hex()[:20000]})
+        else:
+            nok += 1
+    rep.samples.append({"base": render(bases[0]["d"]["doc"]), "variants": "LF / CR LF / CR / mixed; padding after the magic line placing each interesting byte on the 4096-byte read boundary"})
+    log("[C08] variants %d ok %d (bases %d, long %d)" % (total, nok, len(bases), len(longs)))
+    return rep.finish({"states": st["distinct"] + st1["distinct"], "transitions": st["generated"] + st1["generated"], "traces_validated_against_impl": nok,
+                       "variants": total, "bases": len(bases), "long_token_sizes": sizes, "exhaustive": False,
+                       "buffer_model": {"streams_up_to": 6 if tier == "quick" else 8, "states": st["distinct"]},
+                       "explanation": "CifBuffer.tla (per-fill folding with carry) is checked for every stream and cut set up to the bound; on the real parser each base document of CifDoc.tla is rendered with LF / CR LF / CR / mixed terminators and with padding that places each interesting byte (terminators, delimiters, multi-byte characters, every byte of them) on the 4096-byte read boundary; content must equal the denotation and the error list the unpadded LF one shifted by the pad lines"},
+                      ["production buffer sizes are used (4096-byte reads, 131200-unit scan buffer)"])
